@@ -18,6 +18,7 @@
 //   sched <tids> / end
 // Implementation-side monitors (independent of the Lean model): holder counters stored in the mapped value, element
 // liveness (destroyed while an accessor points to it), final-content sanity (each key once, findable, size() agrees).
+#include "verif_hb.h"
 #include <oneapi/tbb/concurrent_hash_map.h>
 #include <cstdio>
 #include <cstring>
@@ -276,11 +277,13 @@ static bool run_once(verif::Schedule& sch0, int run_idx, bool print) {
             if (v.magic != MAGIC) { violation("accessor acquired on a destroyed element"); return; }
             if (kind == 2) { if (v.writers || v.readers) violation("accessor acquired while the element is held (writers=" + std::to_string(v.writers) + ",readers=" + std::to_string(v.readers) + ")"); v.writers++; }
             else { if (v.writers) violation("const_accessor acquired while an accessor holds the element"); v.readers++; }
+            // happens-before ghosts: a writer accessor reads and writes the mapped value, a reader reads it (cell = the element's generation)
+            verif::note("gr", (u64)v.v); if (kind == 2) verif::note("gw", (u64)v.v);
         };
         auto ghost_release = [&] {       // ghost release first: ghost-held intervals lie inside the real ones
             if (!held) return;
             const Val& v = cur_val();
-            if (v.magic == MAGIC) { if (held == 2) v.writers--; else v.readers--; }
+            if (v.magic == MAGIC) { if (held == 2) { v.writers--; verif::note("gw", (u64)v.v); } else { v.readers--; verif::note("gr", (u64)v.v); } }   // last use under the accessor
         };
         auto do_release = [&] {
             eff[t].push_back("r");
@@ -305,6 +308,7 @@ static bool run_once(verif::Schedule& sch0, int run_idx, bool print) {
             verif::note("begin", (u64)op_code(k), (u64)(k == "x" ? held_key : op.key));
             verif::note("gen", (u64)val, 0);
             bool res = false; long rv = k == "x" ? held_gen : 0;
+            if (has_val) verif::note("gw", (u64)val);          // the inserter constructs the value (cell = its generation) before it is published
             if (k == "i") res = m.insert(std::make_pair(op.key, Val(val)));
             else if (op.as_acc) {
                 // documented uses of the base-class reference: the call takes the element lock shared, the object is an `accessor`
@@ -550,6 +554,11 @@ static bool run_once(verif::Schedule& sch0, int run_idx, bool print) {
                 break;
             }
         }
+        ok = g_err.empty();
+    }
+    if (g_err.empty() && !r.deadlock) {
+        auto races = verif::hb_check(r.log, bodies.size());
+        if (!races.empty()) g_err = verif::hb_describe(r.log, races[0]) + " (ghost cell = generation of the mapped value; accesses under accessors / at construction)";
         ok = g_err.empty();
     }
     if (print || !ok) {
